@@ -25,6 +25,10 @@ class C08(EgSpec):
         # the same per-operation checks on e-graphs that carry an analysis (MinSize / Depth): pending entries of kind OnlyAnalysis exist only there
         {'name': 'analysis', 'component': 'egs', 'config': 'default', 'gen_extra': ['an'], 'quick': 150, 'thorough': 4000},
         {'name': 'analysis_checks', 'component': 'egs', 'config': 'checks', 'gen_extra': ['an'], 'quick': 80, 'thorough': 1500},
+        # NOTHING observed between the operations (observation canonicalises and thereby compresses union-find paths): at the end every handle is
+        # first canonicalised on its own (alive, idempotent), then the usual checks; the first-asked equality matrix must equal the observed run's
+        {'name': 'lazy', 'component': 'egs', 'config': 'default', 'gen_extra': ['lazy'], 'quick': 250, 'thorough': 6000},
+        {'name': 'lazy_checks', 'component': 'egs', 'config': 'checks', 'gen_extra': ['lazy'], 'quick': 80, 'thorough': 1500},
         # rewriting: no panic in any iteration, check() passes after every iteration (extra.txt), observations = rewrite model
         {'name': 'rewrites', 'component': 'egr', 'config': 'default', 'quick': 150, 'thorough': 4000},
         {'name': 'rewrites_checks', 'component': 'egr', 'config': 'checks', 'quick': 80, 'thorough': 1500},
@@ -62,9 +66,15 @@ class C08(EgSpec):
         cons = field(pi, 'cons')
         for k, c in enumerate(cons[1:] if cons else []):
             if c != 'ok':
-                out.append(('violation', 'inconsistent ' + core.sx_show(c)[:60], 'after operation %d the e-graph is inconsistent: %s (%s build); asserted: {%s}'
-                            % (k, core.sx_show(c), stream['config'], '; '.join(describe_history(pc))), {'step': k}))
+                when = 'at the end of the history (nothing was observed between its operations)' if stream['name'].startswith('lazy') else 'after operation %d' % k
+                out.append(('violation', 'inconsistent ' + core.sx_show(c)[:60], '%s the e-graph is inconsistent: %s (%s build); asserted: {%s}'
+                            % (when, core.sx_show(c), stream['config'], '; '.join(describe_history(pc))), {'step': k}))
                 return out
+        if stream['name'].startswith('lazy'):
+            pm = core.sx_parse(model_obs) if model_obs is not None else None
+            if pm is not None and isinstance(pm, list) and len(pm) > 1 and steps and core.sx_show(steps[-1]) != core.sx_show(pm[-1]):
+                out.append(('differs', 'model-final', 'the observation at the end of the unobserved history differs from the e-graph model\'s last step; no panic and no inconsistency on the implementation', {'model': core.sx_show(pm[-1])[:400]}))
+            return out
         if model_obs is not None and core.sx_show(field(pi, 'steps')) != model_obs.strip():
             out.append(('differs', 'model-steps', 'the per-operation observations (progress, equalities, slots, node count) differ from the e-graph model; no panic and no inconsistency on the implementation', {'model': model_obs[:400]}))
         return out
